@@ -1576,8 +1576,9 @@ class Connection(object):
                     "Problem while setting keyspace: %r" % (result,), self.endpoint)))
 
         # We've incremented self.in_flight above, so we "have permission" to
-        # acquire a new request id
-        request_id = self.get_request_id()
+        # acquire a new request id (get_request_id must be called with the lock held)
+        with self.lock:
+            request_id = self.get_request_id()
 
         self.send_msg(query, request_id, process_result)
 
